@@ -105,10 +105,22 @@ def items(tier):
     return out
 
 
+def restart_items(tier):
+    """runs stopped at step k and started again with each pair of initialisation flags (placements must stay consistent)"""
+    out = []
+    for sp, o in items(tier)[:: (5 if tier == "quick" else 2)]:
+        for k in (1, 2):
+            for flags in ((False, False), (True, False), (False, True)):
+                out.append((sp, dict(o, resume_from=k, restart_flags=list(flags))))
+    return out
+
+
 def run(tier, seed):
     H, D = (4, 1) if tier == "quick" else (5, 2)
     its = items(tier)
     col = stepcheck.explore(its, MONS, H, D, who_fn=lambda sp: F.facility_names(sp)[:3] + ["P"], seed=seed)
+    ri = restart_items(tier)
+    col.merge(stepcheck.explore(ri, MONS, 0, 0, seed=seed))
     meta = {
         "level": "model_checking",
         "rule": "the FAC family (flat / shared / parent-child / extra components x 1-2 workplaces with capacities 1/2, conveyor link, facility layouts) plus 2-3 components of space 0.5/1 competing "
